@@ -34,7 +34,7 @@ def run(tier, rep):
     rep.add_mc("Gen_Wire/inputs", g)
     inputs = os.path.join(wd, "inputs.ndjson")
     # the payload strings (i) are always replayed completely; the mutants (ii) are sampled in the quick tier (seeded)
-    rates = {"in_frame": 6, "in_params": 8, "in_dgram": 3} if quick else {"in_frame": 1, "in_params": 1, "in_dgram": 1}
+    rates = {"in_frame": 8, "in_params": 10, "in_dgram": 3} if quick else {"in_frame": 2, "in_params": 2, "in_dgram": 1}
     kept = sample_keep_strings(allin, inputs, rates, seed, L)
     for k in ("in_frame", "in_dgram", "in_params"):
         if kept.get(k, 0) < 1000:
@@ -45,7 +45,7 @@ def run(tier, rep):
     rep.cov["parts"]["enumerated"].update({"inputs": kept, "generated": g["behaviours"]})
     # (iii) seeded random inputs
     rnd = os.path.join(wd, "inputs_random.ndjson")
-    vlib.vhx("vh-wire", ["random", seed, 6000 if quick else 120000, rnd])
+    vlib.vhx("vh-wire", ["random", seed, 4000 if quick else 60000, rnd])
     trace = os.path.join(wd, "trace_random.ndjson")
     wc.validate("C03", rep, "random", "c03", rnd, trace, hit, extra=[dls])
     rep.cov["rule"] = ("inputs: (i) every payload string <head> ++ s with head = each 1-byte frame type 0x00..0x1f,0x30..0x32, the alphabet bytes, the 8 "
